@@ -1047,7 +1047,8 @@ pub fn record(suite: &str, n: usize, seed: u64, arg: &str, out: &mut dyn Write) 
                 }
             }
             for f in 0..SUM_FORMS.len() {
-                for srcs in [vec![], vec![2], vec![2, 4], vec![1, 2, 3, 4, 5], vec![6, 6, 6], vec![0, 1]] {
+                let long: Vec<usize> = (0..37).map(|i| (i * 5 + 2) % NREG).collect();
+                for srcs in [vec![], vec![2], vec![2, 4], vec![1, 2, 3, 4, 5], vec![6, 6, 6], vec![0, 1], long.clone()] {
                     let save = m.regs;
                     m.sum(f, &srcs, 0);
                     m.regs = save;
@@ -1172,12 +1173,16 @@ pub fn record(suite: &str, n: usize, seed: u64, arg: &str, out: &mut dyn Write) 
                 }
             }
         }
-        // random msm instances
+        // random msm instances (small, and large enough to change the window size of a Pippenger-style msm)
         "msm" => {
             let mut m = Machine::new(out);
-            for _ in 0..n {
+            for t in 0..n {
                 load_alphabet(&mut m, &mut r);
-                let len = below(&mut r, 7);
+                let len = match t % 8 {
+                    5 => 31 + below(&mut r, 4),
+                    6 => 40 + below(&mut r, 30),
+                    _ => below(&mut r, 7),
+                };
                 let srcs: Vec<usize> = (0..len).map(|_| below(&mut r, NREG)).collect();
                 let ks: Vec<Vec<u8>> = (0..len).map(|_| rand_scalar(&mut r)).collect();
                 let f = m.rot(MSM_FORMS.len().max(1));
@@ -1212,7 +1217,12 @@ pub fn record(suite: &str, n: usize, seed: u64, arg: &str, out: &mut dyn Write) 
             }
             for i in 0..(n / 4 + 4) {
                 let a = inputs[below(&mut r, inputs.len())];
-                let b = inputs[below(&mut r, inputs.len())];
+                let b = match i % 6 {
+                    0 => a,          // both inputs equal: the sum is a doubling
+                    1 => -a,         // same element again (sign symmetry)
+                    2 => Fq::ZERO,
+                    _ => inputs[below(&mut r, inputs.len())],
+                };
                 m.h2c(&a, &b, i % NREG);
             }
         }
